@@ -60,6 +60,10 @@ func Harness_C05_static() {
 		switch vr.Param("FILE", 0) {
 		case 0:
 			name, hdr = "stop_times.txt", []string{"trip_id", "arrival_time", "departure_time", "stop_id", "stop_sequence", "shape_dist_traveled"}
+			if vr.Param("TIMEONLY", 0) == 1 { // only the time cell is hostile, and may be longer
+				rows = append(rows, []string{"t1", hCell(t("arr"), "time", L), "", "s1", "1", ""})
+				continue
+			}
 			rows = append(rows, []string{vr.OneOf(t("trip"), "t1", "zz", ""), hCell(t("arr"), "time", L), vr.OneOf(t("dep"), "", "08:00:00"), vr.OneOf(t("stop"), "s1", "zz"), hCell(t("seq"), "num", LN), vr.OneOf(t("dist"), "", "abc")})
 		case 1:
 			name, hdr = "shapes.txt", []string{"shape_id", "shape_pt_lat", "shape_pt_lon", "shape_pt_sequence", "shape_dist_traveled"}
